@@ -212,7 +212,7 @@ func (p *parent) run(genFile, outFile string, workers, reps1, reps2 int, only st
 			"ctx": j.Ctx, "asset": j.Abs.Asset, "tail": j.Abs.Tail, "query": j.Abs.Query, "body": j.Abs.Body,
 			"url": o.URL, "rep": j.Rep})
 		w.Emit(tr.E{"ev": "out", "id": j.ID, "kind": o.Kind, "status": o.Status, "blen": min(o.Blen, 1<<30), "site": o.Site,
-			"top": o.Top, "msg": o.Msg, "ms": o.MS})
+			"top": o.Top, "chain": o.Chain, "msg": o.Msg, "ms": o.MS})
 		kinds[o.Kind]++
 		eps[j.Abs.Ep]++
 		if o.Kind == "status" {
